@@ -14,7 +14,8 @@ EXPLANATION = ("static analysis: to_directed and the plain branch of to_undirect
                "all three conversions are interpreted on 4-node symbolic graphs with concrete canonical timelines over "
                "t+1..t+3 (both directions of a reciprocal pair varied exhaustively) and the presence relation of the "
                "recorded result (calls replayed by the specification of add_interaction) is compared pair by pair and "
-               "instant by instant with union / intersection / both-directions")
+               "instant by instant with union / intersection / both-directions"
+               ";  a self-loop is its own reverse; node ids are never ordered (only hashed and compared for equality); an unspecified set order is walked both ways; no state shared between calls or graphs (P7)")
 
 
 def run(repo: Repo, tier, rep: Report):
